@@ -8,6 +8,9 @@ What is read (everything else of the functions is the hand model C07/Model.v, ti
   * the polarity (`in` / `not in`) of the descr filter loops of extract_fields / remove_fields
   * the numpy allocator of the output array and which attribute of the input dimensions it
   * the default values of the keyword arguments, and the exception class of every `raise`
+  * (fingerprint only, no parameter) the text of every loop of the eight functions and the whole bodies of
+    copy_fields / copy_fields_by_name (raise messages and docstrings blanked) and of compare_arrays (its
+    stdout.write reporting removed) must be the modelled ones
 
 Fails closed (TranslateError) when a function no longer has the expected shape; the file is
 rewritten only when its text changes (atomic rename)."""
@@ -186,9 +189,124 @@ def sig(fn, names, dflt):
     return got[1]
 
 
+class _Blank(ast.NodeTransformer):
+    """drop what may change harmlessly: the message of a raise, docstrings"""
+
+    def visit_Raise(self, node):
+        if isinstance(node.exc, ast.Call):
+            node = ast.Raise(exc=ast.Call(func=node.exc.func, args=[], keywords=[]), cause=None)
+        return node
+
+    def visit_Expr(self, node):
+        if isinstance(node.value, ast.Constant) and isinstance(node.value.value, str):
+            return None
+        return node
+
+
+def _norm(node):
+    import copy
+    r = _Blank().visit(copy.deepcopy(node))
+    return "" if r is None else u(ast.fix_missing_locations(r))
+
+
+# The loops of the anchored functions (raise messages blanked), in source order, and the complete bodies of the
+# two small copy functions: what the hand model Model.v transcribes.  Any other text fails closed.
+LOOPS = {
+    "combine_fields": ["for arr in arrlist:\n    if arr.size != num:\n        raise ValueError()\n    descr += arr.dtype.descr",
+                       "for arr in arrlist:\n    copy_fields(arr, new_array)"],
+    "copy_fields": ["for name in names1:\n    if name in names2:\n        arr2[name] = arr1[name]"],
+    "extract_fields": ["for name in keepnames:\n    if name not in arrnames:\n        raise ValueError()",
+                       "for d in arr.dtype.descr:\n    name = d[0]\n    if name in keepnames:\n        new_descr.append(d)"],
+    "remove_fields": ["for d in descr:\n    name = d[0]\n    if name not in rmnames:\n        new_descr.append(d)"],
+    "add_fields": ["for d in add_descr:\n    name = d[0]\n    if old_names.count(name) == 0:\n        new_descr.append(d)\n"
+                   "    else:\n        raise ValueError()"],
+    "reorder_fields": ["for name in ordered_names:\n    w, = np.where(original_names == name)\n    if w.size != 0:\n"
+                       "        new_names.append(name)\n        new_descr.append(original_descr[w[0]])\n    elif strict:\n"
+                       "        raise ValueError()",
+                       "for i in range(original_names.size):\n    name = original_names[i]\n    if name not in new_names:\n"
+                       "        new_names.append(name)\n        new_descr.append(original_descr[i])"],
+    "copy_fields_by_name": ["for name, val in zip(names, vals):\n    if name in arrnames:\n        arr[name] = val"],
+    "split_fields": ["for field in fields:\n    if field not in allfields:\n        raise ValueError()\n"
+                     "    outlist.append(data[field])"],
+    "compare_arrays": None,       # (only its signature, defaults and raises are read)
+}
+BODIES = {
+    "copy_fields": "if arr1.size {op} arr2.size:\n    raise ValueError()\nnames1 = arr1.dtype.names\nnames2 = arr2.dtype.names\n"
+                   "for name in names1:\n    if name in names2:\n        arr2[name] = arr1[name]",
+    "copy_fields_by_name": "if not isinstance(names, {t1}):\n    names = [names]\nif not isinstance(vals, {t2}):\n    vals = [vals]\n"
+                           "if len(names) {op} len(vals):\n    raise ValueError()\narrnames = list(arr.dtype.names)\n"
+                           "for name, val in zip(names, vals):\n    if name in arrnames:\n        arr[name] = val",
+}
+
+
+class _Quiet(ast.NodeTransformer):
+    """compare_arrays without its reporting: docstring, stdout.write(...) statements, and the ifs left empty"""
+
+    def visit_Expr(self, node):
+        v = node.value
+        if isinstance(v, ast.Constant) and isinstance(v.value, str):
+            return None
+        if isinstance(v, ast.Call) and u(v.func) == "stdout.write":
+            return None
+        return node
+
+    def visit_If(self, node):
+        self.generic_visit(node)
+        if not node.body and not node.orelse:
+            return None
+        if not node.body:
+            node.body = [ast.Pass()]
+        return node
+
+
+COMPARE_BODY = """nfail = 0
+if not ignore_missing:
+    for n in arr1.dtype.names:
+        if n not in arr2.dtype.names:
+            nfail += 1
+    for n in arr2.dtype.names:
+        if n not in arr1.dtype.names:
+            nfail += 1
+for n in arr1.dtype.names:
+    if n in arr2.dtype.names:
+        if arr2[n].shape != arr1[n].shape:
+            nfail += 1
+        else:
+            w, = np.where(arr1[n].ravel() != arr2[n].ravel())
+            if w.size > 0:
+                nfail += 1
+if nfail == 0:
+    return True
+else:
+    return False"""
+
+
+def fingerprints(f):
+    import copy
+    body = [_Quiet().visit(copy.deepcopy(st)) for st in f["compare_arrays"].body]
+    txt = "\n".join(u(ast.fix_missing_locations(b)) for b in body if b is not None)
+    if txt != COMPARE_BODY:
+        raise TranslateError("compare_arrays: body (without its stdout.write reporting) differs from the modelled one")
+    for name, want in LOOPS.items():
+        if want is None:
+            continue
+        got = [t for _, t in sorted((n.lineno, _norm(n)) for n in ast.walk(f[name]) if isinstance(n, (ast.For, ast.While)))]
+        if got != want:
+            bad = [g for g in got if g not in want] or ["(a loop is missing)"]
+            raise TranslateError("%s: loops differ from the modelled ones: %s" % (name, bad[0].replace("\n", " / ")[:200]))
+    for name, pat in BODIES.items():
+        import re
+        body = "\n".join(x for x in (_norm(st) for st in f[name].body) if x)
+        rx = re.escape(pat).replace(re.escape("{op}"), r"(==|!=|<|<=|>|>=)").replace(re.escape("{t1}"), r".+?").replace(
+            re.escape("{t2}"), r".+?")
+        if not re.fullmatch(rx, body):
+            raise TranslateError("%s: body differs from the modelled one" % name)
+
+
 def extract(src):
     tree = ast.parse(src)
     f = dict((n, _func(tree, n)) for n in FUNCS)
+    fingerprints(f)
     p = {}
     # isinstance dispatch
     p["extract_forms"] = wrap_dispatch(f["extract_fields"], "keepnames")
